@@ -430,3 +430,36 @@ func VC_C08_wrong_type() {
 	verifAssert(vgInt8 == 7 && vgStr == "orig" && vgInt == 9 && vgI64 == 11, "C08.wrong-type.reset-leaves-untouched")
 	verifReached("C08.wrong-type")
 }
+
+// VC_C08_assigned_between_lookup_and_set: the program assigns the variable after the
+// mocker was looked up and before its first Set/Apply (or it is never set at all): what
+// Cancel/Reset restores is the value the variable held right before the first mock write;
+// a mocker that never wrote leaves the variable alone.
+func VC_C08_assigned_between_lookup_and_set() {
+	vEnv()
+	v0, w, v1 := verifInt("v0"), verifInt("w"), verifInt("v1")
+	x0, x1 := 1, 2
+	vgInt, vgPtr = v0, &x0
+	b := Create()
+	hi, hp := b.Var(&vgInt), b.Var(&vgPtr)
+	vgInt, vgPtr = w, &x1 // ordinary program code
+	switch verifChoice("then", 3) {
+	case 0:
+		hi.Set(v1)
+		hp.Set(&x0)
+		verifAssert(vgInt == v1 && vgPtr == &x0, "C08.assigned-between.set-takes-effect")
+	case 1:
+		hi.Apply(func() int { return v1 })
+		verifAssert(vgInt == v1, "C08.assigned-between.set-takes-effect")
+	default: // never set
+	}
+	if verifBool("cancelHandles") {
+		hi.Cancel()
+		hp.Cancel()
+	} else {
+		b.Reset()
+	}
+	verifAssert(vgInt == w, "C08.assigned-between.restores-the-value-before-the-first-mock-write")
+	verifAssert(vgPtr == &x1, "C08.assigned-between.restores-the-pointer-before-the-first-mock-write")
+	verifReached("C08.assigned-between")
+}
